@@ -54,6 +54,9 @@ pub fn table() -> Vec<(Charset, &'static [&'static str])> {
         (cs::EUC_KR, &["euc-kr", "korean", "ks_c_5601-1987", "windows-949", "cseuckr", "iso-ir-149", "ksc5601"][..]),
         (cs::UTF_16BE, &["utf-16be", "unicodefffe"][..]),
         (cs::UTF_16LE, &["utf-16le", "utf-16", "unicode", "ucs-2", "iso-10646-ucs-2", "csunicode", "unicodefeff"][..]),
+        // known labels too: they select the "replacement" decoder (any non-empty body decodes to U+FFFD), not the default charset
+        (encoding_rs::REPLACEMENT, &["replacement", "iso-2022-kr", "csiso2022kr", "hz-gb-2312", "iso-2022-cn", "iso-2022-cn-ext"][..]),
+        (encoding_rs::X_USER_DEFINED, &["x-user-defined"][..]),
     ]
 }
 
@@ -421,7 +424,20 @@ identical result across segmentations and reader styles (all bodies), never Err.
                         let mut out: Vec<u8> = vec![];
                         let mut b = vec![0u8; *buf as usize];
                         let mut res = Ok(());
+                        let mut turn = 0u32;
                         loop {
+                            // a read into an empty buffer says nothing about the end of the text and must not disturb it
+                            turn += 1;
+                            if turn % 3 == 2 {
+                                match r.read(&mut []) {
+                                    Ok(0) => {}
+                                    Err(e) if e.kind() == std::io::ErrorKind::Interrupted => {}
+                                    other => {
+                                        res = Err(format!("read(&mut []) returned {other:?}"));
+                                        break;
+                                    }
+                                }
+                            }
                             match r.read(&mut b) {
                                 Ok(0) => break,
                                 Ok(n) => out.extend_from_slice(&b[..n]),
